@@ -158,15 +158,17 @@ class Categorize(Factory, Container):
         Bins that exist on both sides are checked when they are added; this covers the bins that exist on one side
         only (or on neither side yet), which would otherwise be merged silently whatever their type.
         """
-        if self.value is not None and other.value is not None:
-            self.value + other.value  # the (unfilled) templates must be compatible, at any depth
+        mine = self.value if self.value is not None else next(iter(self.bins.values()), None)
+        theirs = other.value if other.value is not None else next(iter(other.bins.values()), None)
+        if mine is not None and theirs is not None:
+            # empty look-alikes of the two kinds of bins must be mergeable, at any depth
+            mine.zero() + theirs.zero()
             return
-        mine = [v.name for v in self.bins.values()][:1] or [self.value.name if self.value is not None else self.contentType]
-        theirs = [v.name for v in other.bins.values()][:1] or [
-            other.value.name if other.value is not None else other.contentType
-        ]
+        # a side made by ``ed`` or from JSON that is still empty only knows the name of its content type
+        mine = mine.name if mine is not None else self.contentType
+        theirs = theirs.name if theirs is not None else other.contentType
         if mine != theirs:
-            raise ContainerException(f"cannot add {self.name}s because their bins differ ({mine[0]} vs {theirs[0]})")
+            raise ContainerException(f"cannot add {self.name}s because their bins differ ({mine} vs {theirs})")
 
     @inheritdoc(Container)
     def zero(self):
